@@ -22,6 +22,8 @@ fn check_world(case: &Case) -> Outcome {
     let mut labels = vec![];
     let mut handler_event_non_first = false;
     let mut denial_non_first = false;
+    // when a shared oracle already failed the interpreter stopped early: completeness checks are skipped on the partial history
+    let partial = !r.fails.is_empty();
     for node in 0..nn {
         // 1. every FromSwarm reaches every field, in the same order
         let per_field: Vec<Vec<&FS>> = (0..nf).map(|f| r.log.iter().filter(|x| x.node == node && x.field == f).filter_map(|x| if let Entry::Swarm(fs) = &x.entry { Some(fs) } else { None }).collect()).collect();
@@ -47,30 +49,23 @@ fn check_world(case: &Case) -> Outcome {
                 }
             }
         }
-        // every Emit that a handler executed produces exactly one HandlerEvent at the same field (unless the connection closed)
-        for f in 0..nf {
-            let emits: Vec<u64> = r.emissions.iter().filter(|e| e.node == node && e.field == f).map(|e| e.n).collect();
-            for n in emits {
-                let handled: Vec<u64> = r.log.iter().filter(|x| x.node == node && x.field == f).filter_map(|x| if let Entry::HBehaviourEvent { conn, n: m } = &x.entry { if *m == n { Some(*conn) } else { None } } else { None }).collect();
-                // was this an Emit command? look for a HandlerEvent with that tag at any field
-                let arrived: Vec<(u8, u64)> = r.log.iter().filter(|x| x.node == node).filter_map(|x| if let Entry::HandlerEvent { tag, conn, .. } = &x.entry { if *tag == n { Some((x.field, *conn)) } else { None } } else { None }).collect();
-                if arrived.len() > 1 {
-                    return Outcome::fail("C58:handler-event-duplicated", json!({"node": node, "tag": n, "arrived": arrived}));
+        // an Emit command that a handler of field f executed on connection c produces exactly one HandlerEvent, at field f,
+        // for connection c (it may be lost only when that connection was closed)
+        for e in r.emissions.iter().filter(|e| e.node == node && e.emit) {
+            let f = e.field;
+            let n = e.n;
+            let handled: Vec<u64> = r.log.iter().filter(|x| x.node == node && x.field == f).filter_map(|x| if let Entry::HBehaviourEvent { conn, n: m } = &x.entry { if *m == n { Some(*conn) } else { None } } else { None }).collect();
+            let arrived: Vec<(u8, u64)> = r.log.iter().filter(|x| x.node == node).filter_map(|x| if let Entry::HandlerEvent { tag, conn, .. } = &x.entry { if *tag == n { Some((x.field, *conn)) } else { None } } else { None }).collect();
+            if arrived.len() > 1 {
+                return Outcome::fail("C58:handler-event-duplicated", json!({"node": node, "tag": n, "arrived": arrived}));
+            }
+            if let Some((af, ac)) = arrived.first() {
+                if *af != f || handled.first() != Some(ac) {
+                    return Outcome::fail("C58:handler-event-routed-to-wrong-field", json!({"node": node, "tag": n, "emitting_field": f, "arrived_at_field": af, "conn": ac, "handled_on": handled}));
                 }
-                if let Some((af, ac)) = arrived.first() {
-                    if *af != f || handled.first() != Some(ac) {
-                        return Outcome::fail("C58:handler-event-routed-to-wrong-field", json!({"node": node, "tag": n, "emitting_field": f, "arrived_at_field": af, "conn": ac, "handled_on": handled}));
-                    }
-                }
-                let is_emit = case.ops.iter().any(|o| matches!(o, life::Op::Notify { cmd: simswarm::probe::HCmd::Emit(_), .. }));
-                if is_emit && arrived.is_empty() {
-                    if let Some(c) = handled.first() {
-                        // the handler executed the command; if it was an Emit the event must arrive unless the connection closed
-                        let was_emit = emitted_tags(case, &r, node, f).contains(&n);
-                        if was_emit && !closed.contains(c) {
-                            return Outcome::fail("C58:handler-event-lost", json!({"node": node, "field": f, "tag": n, "conn": c}));
-                        }
-                    }
+            } else if let Some(c) = handled.first() {
+                if !partial && !closed.contains(c) {
+                    return Outcome::fail("C58:handler-event-lost", json!({"node": node, "field": f, "tag": n, "conn": c}));
                 }
             }
         }
@@ -105,29 +100,32 @@ fn check_world(case: &Case) -> Outcome {
             .collect();
         let mut some_field_denied: BTreeSet<u64> = BTreeSet::new();
         for ((conn, d), v) in &asked {
-            // fields are asked in declaration order until one denies
-            let fields: Vec<u8> = v.iter().map(|(f, _)| *f).collect();
-            let want: Vec<u8> = (0..fields.len() as u8).collect();
-            if fields != want {
-                return Outcome::fail("C58:fields-not-consulted-in-order", json!({"node": node, "conn": conn, "decision": d, "fields": fields}));
+            // (the order in which fields are consulted, and whether consultation stops at the first denial, are not part
+            // of the statement and are not asserted)
+            let mut fields: Vec<u8> = v.iter().map(|(f, _)| *f).collect();
+            fields.sort();
+            fields.dedup();
+            if fields.len() != v.len() {
+                return Outcome::fail("C58:field-consulted-twice-for-one-decision", json!({"node": node, "conn": conn, "decision": d, "asked": v}));
             }
             if let Some(pos) = v.iter().position(|(_, den)| *den) {
                 some_field_denied.insert(*conn);
-                if pos > 0 {
+                if v[pos].0 > 0 {
                     denial_non_first = true;
                 }
-                if pos + 1 != v.len() {
-                    return Outcome::fail("C58:field-consulted-after-denial", json!({"node": node, "conn": conn, "decision": d, "asked": v}));
-                }
-            } else if v.len() != nf as usize {
+            } else if !partial && v.len() != nf as usize {
                 return Outcome::fail("C58:not-every-field-consulted", json!({"node": node, "conn": conn, "decision": d, "asked": v, "fields": nf}));
             }
         }
         let reported: BTreeSet<u64> = denied_events.union(&denied_sync).cloned().collect::<BTreeSet<_>>().union(&denied_fs).cloned().collect();
-        if reported != some_field_denied {
+        if !partial && reported != some_field_denied {
             return Outcome::fail("C58:denied-iff-some-field-denies-violated", json!({"node": node, "reported_denied": reported, "some_field_denied": some_field_denied}));
         }
         let _ = Decision::EstIn;
+    }
+    // failures of the shared lifecycle/denial oracles (C01/C02/C05/C06 signatures) in a derived-behaviour world
+    if let Some((sig, detail)) = r.fails.first() {
+        return Outcome::fail(sig.clone(), detail.clone());
     }
     if handler_event_non_first {
         labels.push("handler_event_non_first_field");
@@ -136,36 +134,6 @@ fn check_world(case: &Case) -> Outcome {
         labels.push("denial_non_first_field");
     }
     Outcome::pass_l(handler_event_non_first && denial_non_first, labels)
-}
-
-fn emitted_tags(case: &Case, r: &life::RunResult, node: u8, field: u8) -> BTreeSet<u64> {
-    // notification numbers are assigned in program order to Notify ops that found an established connection;
-    // recover which of them were Emit commands by replaying the numbering over the recorded emissions
-    let mut tags = BTreeSet::new();
-    let mut k = 0usize;
-    for op in &case.ops {
-        if let life::Op::Notify { cmd, .. } = op {
-            // emissions are recorded in the same order as executed Notify ops
-            if k < r.emissions.len() {
-                // a Notify op is skipped (no emission) when no connection was established at that time; we cannot
-                // know that from the case alone, so use the log: an HBehaviourEvent handled => look at what the
-                // handler did next. Conservative: treat only ops whose cmd is Emit as candidates.
-                if matches!(cmd, simswarm::probe::HCmd::Emit(_)) {
-                    for e in r.emissions.iter().filter(|e| e.node == node && e.field == field) {
-                        tags.insert(e.n);
-                    }
-                }
-                k += 1;
-            }
-        }
-    }
-    // refine: only tags for which some handler logged the Emit-specific effect cannot be recovered; see check (lost is
-    // only reported when every Notify op of the case is an Emit)
-    if case.ops.iter().filter(|o| matches!(o, life::Op::Notify { .. })).all(|o| matches!(o, life::Op::Notify { cmd: simswarm::probe::HCmd::Emit(_), .. })) {
-        tags
-    } else {
-        BTreeSet::new()
-    }
 }
 
 // ---------------------------------------------------------------------------------------------
